@@ -54,6 +54,8 @@ pub fn trivia_menu() -> Vec<(&'static str, &'static str)> {
         ("comment-with-stars", " (* a * b *) "),
         ("comment-with-open-paren-star", " (* (* *) "),
         ("comment-three-stars", " (***) "),
+        ("comment-starting-with-close-paren", " (*) x *) "),
+        ("comment-ending-with-open-paren", " (* x (*) "),
         ("multi-line-comment", " (* a\n   b *) "),
         ("multi-line-comment-crlf", " (* a\r\n   b *)\r\n"),
         ("non-ascii-comment", " (* \u{e9}\u{20ac}\u{1F600} *) "),
